@@ -54,6 +54,16 @@ def describe(fn: ast.AST, cfg: CFG, e: ast.AST, at: int, depth: int = 5) -> SetD
             d.merge(describe(fn, cfg, val, nid, depth - 1))
             _mutations(fn, cfg, e.id, nid, at, d, depth)
             return d
+        if len(defs) > 1 and all(nid != cfg.entry and v is not None for nid, v in defs):
+            # alternative definitions (if / else): the union of what each branch builds, each under its own guard
+            for nid, val in defs:
+                sub = describe(fn, cfg, val, nid, depth - 1)
+                st = cfg.nodes[nid].ast
+                gf = frozenset(norm_facts(guard_facts(fn, st))) if st is not None else frozenset()
+                sub.adds = [Add(a.elem, a.iters, a.facts | gf) for a in sub.adds]
+                d.merge(sub)
+                _mutations(fn, cfg, e.id, nid, at, d, depth)
+            return d
         d.bases.add(e.id)
         return d
     if isinstance(e, ast.Attribute):
@@ -123,3 +133,23 @@ def _mutations(fn: ast.AST, cfg: CFG, name: str, def_node: int, use_node: int, d
             d.merge(describe(fn, cfg, v, sn, depth - 1))
         else:
             d.unknown.append(unparse(st)[:80])
+
+
+def element_shape(a: Add) -> str:
+    """The element expression of an addition with its (single) iteration variable renamed to `_x` (tuple targets:
+    `_x0`, `_x1`, ...), so that `M.get(v, v) for v in S` and `M.get(w, w) for w in S` compare equal."""
+    if not a.iters:
+        return a.elem
+    tg = a.iters[-1][0].strip("()")
+    names = [t.strip() for t in tg.split(",") if t.strip()]
+    ren = {n: (f"_x{i}" if len(names) > 1 else "_x") for i, n in enumerate(names)}
+    try:
+        e = ast.parse(a.elem, mode="eval").body
+    except SyntaxError:
+        return a.elem
+
+    class R(ast.NodeTransformer):
+        def visit_Name(self, node: ast.Name):
+            return ast.copy_location(ast.Name(id=ren.get(node.id, node.id), ctx=node.ctx), node)
+
+    return unparse(R().visit(e))
